@@ -625,8 +625,10 @@ func describeLin(lin []simkit.LinOp, key string) string {
 			}
 			return sig
 		}
-		if k := o.In.(string); out.res == "ok" && k != "get" && k != "head" && o.Ret < culpritCall {
-			switch {
+		if k := o.In.(string); out.res == "ok" && k != "get" && k != "head" && k != "dedup" {
+			switch pre := o.Ret < culpritCall; {
+			case !tombDone && !pre:
+				// (concurrent with the culprit: does not replace the root established before)
 			case !tombDone:
 				// the diagnosis stays with the last acknowledged mutation; once a tombstone was
 				// acknowledged, with that tombstone (later acknowledged calls change nothing)
